@@ -41,3 +41,9 @@ CLAIMED['C02'] = ('6/C02', 'Bounded-exhaustive symbolic check: after a symbolic 
                   'watcher tables of every object, batching state, Parameter slots, dynamic-generator state) and the event log are compared '
                   'before/after, and the old link must keep driving the parameter while the attempted one must not.',
                   'symbolic execution (CrossHair+z3) of Parameter.__set__ with symbolic history and rejected value; snapshot comparison')
+CLAIMED['C08'] = ('6/C08', 'Bounded symbolic check: a target with two allow_refs Integer parameters (one bounded) and a nested_refs List linked (in '
+                  'the constructor or later) to Parameter / bind / rx / depends-function references; after each of k=3/4 symbolic operations '
+                  '(source updates incl. values invalid for the target, relinks, plain overrides, update-context enter/exit, relinking the '
+                  'other parameters; symbolic values) the held values are compared with an independently computed resolution of the '
+                  'currently installed reference and the sources\' watcher tables with the links that should exist.',
+                  'symbolic execution (CrossHair+z3) of the reference linking/propagation code against an independent resolution model')
